@@ -65,6 +65,7 @@ def run_check(prop, seed=1):
     t = time.time()
     env = dict(os.environ)
     env["VERIF_SEED"] = str(seed)
+    env["VERIF_EVIDENCE_DIR"] = os.path.join(VERIF, "build", "evidence-seeded")
     p = subprocess.run([sys.executable, os.path.join(VERIF, "tools", "check.py"), prop, "--tier", "quick"], cwd=VERIF, stdout=subprocess.PIPE, stderr=subprocess.STDOUT, text=True, env=env)
     viol = [l for l in p.stdout.splitlines() if l.startswith("VIOLATION")]
     return prop, p.returncode, viol, time.time() - t, p.stdout[-600:]
